@@ -153,5 +153,5 @@ def run(ctx):
 
 def replay(ctx, path):
     bins = build_variants(ctx, ['gxx17_map'])
-    vlib.sh('make -C %s' % os.path.join(vlib.ROOT, 'ocaml'), timeout=600)
+    vlib.sh('make -C %s' % vlib.OCAML, timeout=600)
     return X.replay_file(ctx, path, bins)
